@@ -9,24 +9,24 @@ from . import c04, c05, c09, c10, c11, c12, c13, c14, c02
 
 
 def check(ctx):
-    sizing_inputs(ctx)
-    sizer_selection(ctx)
-    execution(ctx)
-    funding(ctx)
+    ctx.sub(sizing_inputs)
+    ctx.sub(sizer_selection)
+    ctx.sub(execution)
+    ctx.sub(funding)
     # documented rules checked by their own properties' rules (each a necessary condition of C08 as well)
-    c10.s1_formula(ctx)                     # long-only: floor of the buffered, fee-reduced allocation over the price
-    c11.check(ctx)                          # long/short: leverage-scaled allocation truncated toward zero
-    c09.s4_order_diff(ctx)                  # order = target - current, sorted, non-zero
-    c09.s2_s3_call(ctx)
-    c04.s4_in_full(ctx)                     # filled in full
-    c04.s6_hours(ctx)                       # 14:30 open is in hours, 21:00 close is not: orders sized at the close fill at the next open
-    c05.s1_s2_s3_execute(ctx)               # at the quote of the fill time, commission from the fee model
-    c04.s2_s3_update(ctx)                   # sells first
-    c14.s1_loop_table(ctx)                  # rebalance at scheduled closes, equity sampled at each close after the broker update
-    c14.s5_outputs(ctx)
-    c02.mark_loop(ctx, 'C08.equity')        # equity = cash + holdings at that close's price
-    c12.clock_range_rule(ctx, 'C08.clock')
-    open_row_is_exchange_open(ctx)
+    ctx.sub(c10.s1_formula)                     # long-only: floor of the buffered, fee-reduced allocation over the price
+    ctx.sub(c11.check)                          # long/short: leverage-scaled allocation truncated toward zero
+    ctx.sub(c09.s4_order_diff)                  # order = target - current, sorted, non-zero
+    ctx.sub(c09.s2_s3_call)
+    ctx.sub(c04.s4_in_full)                     # filled in full
+    ctx.sub(c04.s6_hours)                       # 14:30 open is in hours, 21:00 close is not: orders sized at the close fill at the next open
+    ctx.sub(c05.s1_s2_s3_execute)               # at the quote of the fill time, commission from the fee model
+    ctx.sub(c04.s2_s3_update)                   # sells first
+    ctx.sub(c14.s1_loop_table)                  # rebalance at scheduled closes, equity sampled at each close after the broker update
+    ctx.sub(c14.s5_outputs)
+    ctx.sub(c02.mark_loop, 'C08.equity')        # equity = cash + holdings at that close's price
+    ctx.sub(c12.clock_range_rule, 'C08.clock')
+    ctx.sub(open_row_is_exchange_open)
 
 
 def sizing_inputs(ctx):
